@@ -167,7 +167,7 @@ def gen_case(rng, max_len):
                 continue
         if style == "plausible" and rng.random() < 0.25:
             # a typical client move: track change or buffering run
-            move = rng.choice(["change", "bufrun", "stop", "gapless"])
+            move = rng.choice(["change", "bufrun", "stop", "gapless", "race"])
             if move == "change":
                 out += [("prep", True), ("uri", rng.randrange(N_URIS), False, False)]
                 if rng.random() < 0.7:
@@ -176,6 +176,15 @@ def gen_case(rng, max_len):
                 sim.cur = "READY" if sim.cur != "NULL" else sim.cur
                 sim.request("PLAYING" if out[-1][0] == "start" else "PAUSED")
                 sim.fresh = True
+            elif move == "race":
+                # #1222/#1430: a transition completes while a track change is already requested
+                # (pause/start immediately followed by prepare_change); the report is dropped
+                first = rng.choice(["pause", "start", "stop"])
+                tgt = REQUEST[first]
+                out += [(first, True), ("prep", True),
+                        ("sc", True, rng.choice(STATES[1:]), tgt, "VOID_PENDING"),
+                        (rng.choice(["start", "pause"]), True)]
+                sim.cur, sim.want = tgt, REQUEST[out[-1][0]]
             elif move == "gapless":
                 # about-to-finish: the next URI is set while playing, its tags arrive, then it starts
                 if rng.random() < 0.6:
@@ -348,6 +357,7 @@ def monitors(inputs, obs):
         fails.append((mon, key, what))
 
     requested = "NULL"       # last state asked for by a control call (or by on_error)
+    reached = "stopped"      # playback state reached by the last completed playbin transition
     last_cmd = None          # last set_state the pipeline received
     last_uri = None
     in_pending = False       # a set_uri happened and its stream has not started yet
@@ -399,6 +409,26 @@ def monitors(inputs, obs):
             atf_cb = bool(inp[1])
         if k == "srccb":
             src_cb = bool(inp[1])
+
+        # ---- Audio.state / old_state / new_state = last REACHED state (theorems
+        #      C06_T1_state_is_last_reached, C06_T1_reports_match_last_reached), also when the
+        #      report is suppressed because a track change (READY) is requested
+        reached_before = reached
+        if k == "sc" and inp[1]:
+            n_, p_ = inp[3], inp[4]
+            if n_ == "READY" and p_ == "NULL":
+                n_, p_ = "NULL", "VOID_PENDING"
+            if p_ == "VOID_PENDING" and n_ in IMAGE:
+                reached = IMAGE[n_]
+        if o["state"] != reached:
+            fail("state_is_last_reached", {"clause": "audio_state"},
+                 f"Audio.state is {o['state']} but the pipeline last reached {reached} (requested {req_before})")
+        for e in evs:
+            if e["name"] == "state_changed" and (e["sent"].get("old_state") != reached_before
+                                                 or e["sent"].get("new_state") != reached):
+                fail("state_is_last_reached", {"clause": "report"},
+                     f"state_changed({e['sent'].get('old_state')} -> {e['sent'].get('new_state')}) but the pipeline "
+                     f"went {reached_before} -> {reached}")
 
         # ---- T1 reports_sound
         for e in evs:
@@ -721,7 +751,7 @@ def coq_compare(chk, name, cases):
         # Gallina monitors (Monitor.v: T1, T2, T3, T4 withholding, T5 invariant) on the implementation's trace
         for (inputs, obs, real), code in zip(shard, lists[1]):
             for bit, mon in ((1, "coq:stopped_followed"), (2, "coq:stream_announced_once"), (4, "coq:buffering_invariant"),
-                             (8, "coq:reports_sound"), (16, "coq:tags_withheld")):
+                             (8, "coq:reports_sound"), (16, "coq:tags_withheld"), (32, "coq:state_is_last_reached")):
                 if code & bit:
                     sig = (mon, "{}")
                     if sig in chk.__dict__.setdefault("_c06_seen_fail", set()):
